@@ -109,6 +109,12 @@ func inFmtSprint(fr *frame, args []value) value {
 }
 
 func strConcat(a, b value) value {
+	if x, ok := a.(*sym); ok && x.s == sAtom {
+		a = atomStr(x)
+	}
+	if x, ok := b.(*sym); ok && x.s == sAtom {
+		b = atomStr(x)
+	}
 	as, aok := a.(string)
 	bs, bok := b.(string)
 	if aok && bok {
@@ -208,6 +214,11 @@ func fmtArg(fr *frame, verb byte, a value) value {
 		return x
 	case *sym:
 		switch x.s {
+		case sAtom:
+			if verb == 'q' {
+				return quoteVal(atomStr(x))
+			}
+			return atomStr(x)
 		case sStr:
 			if verb == 'q' {
 				return quoteVal(x)
@@ -282,7 +293,12 @@ func findMethod(i *interpreter, t types.Type, name string) value {
 // ---------------------------------------------------------------------
 // strings
 
-func strTerm(v value) string { return symOf(v).e }
+func strTerm(v value) string {
+	if a, ok := v.(*sym); ok && a.s == sAtom {
+		return atomStr(a).e
+	}
+	return symOf(v).e
+}
 
 func inTrimPrefix(fr *frame, args []value) value {
 	s, sok := args[0].(string)
@@ -526,6 +542,16 @@ func inURLParse(fr *frame, args []value) value {
 		return tuple{i.concreteURL(u), iface{}}
 	case *sym:
 		pc := i.pc
+		if s.s == sAtom {
+			st := i.urlStruct()
+			v := zero(st).(structure)
+			v[i.fieldIndex(st, "Scheme")] = "https"
+			v[i.fieldIndex(st, "Host")] = &sym{s: sAtom, e: "(iri_host " + s.e + ")", pc: pc}
+			v[i.fieldIndex(st, "Opaque")] = urlMarker
+			v[i.fieldIndex(st, "Path")] = s
+			cell := value(v)
+			return tuple{&cell, iface{}}
+		}
 		if !pc.decide("(url_ok "+s.e+")", fr) {
 			return tuple{(*value)(nil), i.newError(strConcat("parse ", strConcat(quoteVal(s), ": invalid URL")))}
 		}
@@ -560,6 +586,12 @@ func inURLString(fr *frame, args []value) value {
 	st := i.urlStruct()
 	if op, _ := s[i.fieldIndex(st, "Opaque")].(string); op == urlMarker {
 		path := s[i.fieldIndex(st, "Path")]
+		if ps, ok := path.(*sym); ok && ps.s == sAtom {
+			if h, ok := s[i.fieldIndex(st, "Host")].(*sym); !ok || h.e != "(iri_host "+ps.e+")" {
+				panic(engineErr("symbolic URL with modified Host"))
+			}
+			return ps
+		}
 		// Host/Scheme must still be the parsed ones
 		if ps, ok := path.(*sym); ok {
 			inner := strings.TrimSuffix(strings.TrimPrefix(ps.e, "(url_norm "), ")")
